@@ -356,7 +356,7 @@ func (e *Enc) execAppend(fr *Frame, c *ssa.CallCommon, args []Val, cur *pathStat
 				e.assume(fmt.Sprintf("(= (select %s (sidx (s_off %s) (+ (s_len %s) %d))) (select (select %s (s_arr %s)) (sidx (s_off %s) %d)))", nc, r, s, i, old, t.T, t.T, i))
 			}
 		} else {
-			e.assume(fmt.Sprintf("(forall ((j Int)) (! (=> (and (<= 0 j) (< j %s)) (= (select %s (sidx (s_off %s) (+ (s_len %s) j))) (select (select %s (s_arr %s)) (sidx (s_off %s) j)))) :pattern ((select (select %s (s_arr %s)) (sidx (s_off %s) j))))))", n, nc, r, s, old, t.T, t.T, old, t.T, t.T))
+			e.assume(fmt.Sprintf("(forall ((j Int)) (! (=> (and (<= 0 j) (< j %s)) (= (select %s (sidx (s_off %s) (+ (s_len %s) j))) (select (select %s (s_arr %s)) (sidx (s_off %s) j)))) :pattern ((select (select %s (s_arr %s)) (sidx (s_off %s) j)))))", n, nc, r, s, old, t.T, t.T, old, t.T, t.T))
 		}
 	}
 	cur.st.v[comp.Name] = se2
